@@ -390,6 +390,9 @@ def run(ctx):
     ctx.rule("R-18.1", "one rejection clause per item of the property statement, integer comparisons normalised, numeric options tested with `is not False`", floor=11)
     ctx.rule("R-18.2", "every returned configuration passed check_config last; scheduler only runs on setup_config's result", floor=2)
     ctx.rule("R-18.3", "normalising stores of setup_config are idempotent by shape", floor=5)
+    ctx.rule("R-18.7", "an accepted configuration reaches the weight function whole: calc_cv_vector receives interfaces, moves, lambda_minus_one and cap from the configuration at every call site, each in its own parameter (shared with C06 R-6.8)", floor=4)
+    from .shared import callsite_config_agreement
+    ctx.attempt(callsite_config_agreement, ctx, "R-18.7", "calc_cv_vector", ["interfaces", "moves", "lambda_minus_one", "cap"], " (an accepted configuration with interface_cap initialises with weights computed against the last interface: the initial paths are weighted differently from every later path, silently)")
     ctx.attempt(r181, ctx)
     ctx.attempt(r182, ctx)
     ctx.attempt(r183, ctx)
@@ -401,6 +404,7 @@ def run(ctx):
 
 
 VARIANTS = [
+    B("c18-cap-lands-on-lambda-minus-one", REPEX, "                lambda_minus_one=self.config[\"simulation\"][\"tis_set\"][\n                    \"lambda_minus_one\"\n                ],\n                cap=self.cap,", "                lambda_minus_one=self.cap,", "R-18.7", control=True, why="seeded C18_j"),
     B("c18-engine-collection-breaks", SETUP, "            if engine not in unique_engines:\n                unique_engines.append(engine)", "            if engine in unique_engines:\n                break\n            unique_engines.append(engine)", "R-18.6", control=True, why="seeded C18_g"),
     K("c18-keep-engine-collection-continue", SETUP, "            if engine not in unique_engines:\n                unique_engines.append(engine)", "            if engine in unique_engines:\n                continue\n            unique_engines.append(engine)"),
     B("c18-cap-checked-in-wrong-section", SETUP, 'intf_cap = config["simulation"]["tis_set"].get("interface_cap", False)', 'intf_cap = config["simulation"].get("interface_cap", False)', "R-18.5", control=True),
